@@ -12,6 +12,96 @@ namespace Cook
 
 variable {α : Type} [Arith α]
 
+/-! ### items under ADVANCED_UNITS and INLINE_QUANTITIES -/
+
+/-- a timer that raises nothing under ADVANCED_UNITS: a numeric amount, and a unit the converter knows
+    as a unit of time (vacuous when the extension is off) -/
+def TimerAdvOK (env : Env) (lt : Loc (PTimer α)) : Prop :=
+  env.ext.has Gen.EXT_ADVANCED_UNITS = true → ∀ q, lt.val.quantity = some q →
+    q.val.value.value.val.isText = false ∧
+    ∀ u, q.val.unit = some u → env.findUnit (u.trimmed env.cs) = some env.timeQ
+
+/-- a step text that INLINE_QUANTITIES leaves in one piece: `find_inline_quantity` finds nothing in it
+    (vacuous when the extension is off) -/
+def TextInlOK (env : Env) (t : Text) : Prop :=
+  env.ext.has Gen.EXT_INLINE_QUANTITIES = true →
+    t.text ≠ [] ∧ findInlineQuantity (α := α) env (t.text.length + 1) [] t.text = none
+
+/-- the side conditions of an item, for every extension set -/
+def SItem.SimpleX (env : Env) : SItem α → Prop
+  | .text t => TextInlOK (α := α) env t
+  | .ingredient i => IngrSimple i
+  | .cookware c => CwSimple c
+  | .timer t => TimerSimple t ∧ TimerAdvOK env t
+
+/-- closed form: a text without ASCII digit has no inline quantity -/
+theorem rts_no_digit_no_inline (env : Env) (fuel : Nat) (pre txt : Str) (h : txt.all (fun c => !isAsciiDigitC c) = true) :
+    findInlineQuantity (α := α) env fuel pre txt = none := by
+  cases fuel with
+  | zero => rfl
+  | succ f =>
+    unfold findInlineQuantity
+    have : txt.dropWhile (fun c => !isAsciiDigitC c) = [] := by
+      clear pre f
+      induction txt with
+      | nil => rfl
+      | cons c r ih =>
+        simp only [List.all_cons, Bool.and_eq_true] at h
+        simp only [List.dropWhile_cons, h.1, if_true]
+        exact ih h.2
+    simp only [this]
+
+theorem rts_proc_timer (env : Env) (input : Str) (lt : Loc (PTimer α)) (s : Col α) (items : List Item)
+    (h : TimerSimple lt) (hadv : TimerAdvOK env lt) (hb : s.block = some (.step items)) :
+    (processEvent env input (.timer lt) s).2 =
+      { s with timers := s.timers.push (timerOf env lt),
+               block := some (.step (items ++ [.timer s.timers.size])) } := by
+  by_cases hext : env.ext.has Gen.EXT_ADVANCED_UNITS = true
+  · have e : processEvent env input (.timer lt) s = inBlockComponent env input (.timer lt) s := rfl
+    rw [e, rta_inBlock_step env input _ s items hb]
+    have hq : timerQuantity env lt.val.quantity s = (lt.val.quantity.map (fun q => expQuantity env q false), s) := by
+      cases hq : lt.val.quantity with
+      | none => rfl
+      | some q =>
+        obtain ⟨h1, h2⟩ := hadv hext q hq
+        have hv : (expQuantity env q false).value.val.isText = false := by
+          simp only [expQuantity, expValue]
+          split <;> exact h1
+        simp only [timerQuantity, bind, StateT.bind, rta_quantityOf env q false s (h.lock q hq), timerQuantityChecks, hext,
+          if_true, hv, Bool.false_eq_true, if_false, pure, StateT.pure, Option.map_some]
+        cases hu : q.val.unit with
+        | none => simp [expQuantity, hu, pure, StateT.pure]
+        | some u =>
+          have := h2 u hu
+          simp [expQuantity, hu, this, pure, StateT.pure]
+    have ht : timerA env lt s = (s.timers.size, { s with timers := s.timers.push (timerOf env lt) }) := by
+      unfold timerA
+      simp only [bind, StateT.bind, hq, get, getThe, MonadStateOf.get, StateT.get, pure, StateT.pure, modify, modifyGet,
+        MonadStateOf.modifyGet, StateT.modifyGet, Array.size_push, Nat.add_sub_cancel]
+      rfl
+    simp only [inStepComponent, bind, StateT.bind, ht]
+    rw [rta_pushItem _ { s with timers := s.timers.push (timerOf env lt) } items hb]
+  · exact rta_proc_timer env input lt s items h (by simpa using hext) hb
+
+theorem rts_proc_text (env : Env) (input : Str) (t : Text) (s : Col α) (items : List Item)
+    (hinl : TextInlOK (α := α) env t) (hd : s.defineMode = .all) (hb : s.block = some (.step items)) :
+    (processEvent env input (.text t) s).2 = { s with block := some (.step (items ++ [.text t.text])) } := by
+  by_cases hext : env.ext.has Gen.EXT_INLINE_QUANTITIES = true
+  · obtain ⟨hne, hnone⟩ := hinl hext
+    have e : processEvent env input (.text t) s = inStepText env t s := rfl
+    rw [e]
+    unfold inStepText
+    simp only [bind, StateT.bind, get, getThe, MonadStateOf.get, StateT.get, pure, StateT.pure, hb]
+    unfold inStepTextStep
+    have hloop : inlineLoop (α := α) env (t.text.length + 1) t.text items s.inlineQ = (items ++ [.text t.text], s.inlineQ) := by
+      unfold inlineLoop
+      simp only [hnone]
+      have : t.text.isEmpty = false := by cases ht : t.text <;> simp_all
+      simp [this]
+    simp [bind, StateT.bind, get, getThe, MonadStateOf.get, StateT.get, pure, StateT.pure, hd, hext, hloop, modify, modifyGet,
+      MonadStateOf.modifyGet, StateT.modifyGet]
+  · exact rta_proc_text env input t s items (by simpa using hext) hd hb
+
 /-- a block of a document, as the parser hands it to the analysis -/
 inductive SBlock (α : Type) where
   | step (items : List (SItem α))
@@ -32,7 +122,7 @@ structure EntryPlain (env : Env) (k v : Text) : Prop where
     env.stdCheck sk (v.outerTrimmed env.cs) ≠ .rejected ∧ stdKeyIsTime sk = false
 
 def SBlock.OK (env : Env) : SBlock α → Prop
-  | .step st => (∀ it ∈ st, it.Simple) ∧ st ≠ []
+  | .step st => (∀ it ∈ st, it.SimpleX env) ∧ st ≠ []
   | .sect _ => True
   | .entry k v => EntryPlain env k v
 
@@ -91,16 +181,15 @@ def stOfX (env : Env) (base : Col α) (before : List (SItem α)) (content : List
     stepCounter := counter,
     block := block }
 
-theorem rts_item (env : Env) (input : Str) (hadv : env.ext.has Gen.EXT_ADVANCED_UNITS = false)
-    (hinl : env.ext.has Gen.EXT_INLINE_QUANTITIES = false) (base : Col α) (hb : BaseOK base) (it : SItem α)
-    (h : it.Simple) (before : List (SItem α)) (content : List Content) (n : Nat) (items : List Item) :
+theorem rts_item (env : Env) (input : Str) (base : Col α) (hb : BaseOK base) (it : SItem α)
+    (h : it.SimpleX env) (before : List (SItem α)) (content : List Content) (n : Nat) (items : List Item) :
     (processEvent env input it.ev (stOfX env base before content n (some (.step items)))).2 =
       stOfX env base (before ++ [it]) content n (some (.step (items ++ [it.toItem before]))) := by
   have hd : (stOfX env base before content n (some (.step items))).defineMode = .all := hb.1
   have hdup : (stOfX env base before content n (some (.step items))).duplicateMode = .new := hb.2
   cases it with
   | text t =>
-    rw [SItem.ev, rta_proc_text env input t _ items hinl hd rfl]
+    rw [SItem.ev, rts_proc_text env input t _ items h hd rfl]
     simp [stOfX, SItem.toItem, ingrsOf, cwsOf, timersOf, SItem.ingr?, SItem.cw?, SItem.timer?]
   | ingredient li =>
     rw [SItem.ev, rta_proc_ingredient env input li _ items h hd hdup rfl]
@@ -109,13 +198,12 @@ theorem rts_item (env : Env) (input : Str) (hadv : env.ext.has Gen.EXT_ADVANCED_
     rw [SItem.ev, rta_proc_cookware env input lc _ items h hd hdup rfl]
     simp [stOfX, SItem.toItem, ingrsOf, cwsOf, timersOf, SItem.ingr?, SItem.cw?, SItem.timer?]
   | timer lt =>
-    rw [SItem.ev, rta_proc_timer env input lt _ items h hadv rfl]
+    rw [SItem.ev, rts_proc_timer env input lt _ items h.1 h.2 rfl]
     simp [stOfX, SItem.toItem, ingrsOf, cwsOf, timersOf, SItem.ingr?, SItem.cw?, SItem.timer?]
 
-theorem rts_loop_items (env : Env) (input : Str) (hadv : env.ext.has Gen.EXT_ADVANCED_UNITS = false)
-    (hinl : env.ext.has Gen.EXT_INLINE_QUANTITIES = false) (base : Col α) (hb : BaseOK base) (rest : List (Ev α))
+theorem rts_loop_items (env : Env) (input : Str) (base : Col α) (hb : BaseOK base) (rest : List (Ev α))
     (content : List Content) (n : Nat) :
-    ∀ (st : List (SItem α)), (∀ it ∈ st, it.Simple) → ∀ (before : List (SItem α)) (items : List Item),
+    ∀ (st : List (SItem α)), (∀ it ∈ st, it.SimpleX env) → ∀ (before : List (SItem α)) (items : List Item),
       parseEventsLoop env input (st.map SItem.ev ++ rest) (stOfX env base before content n (some (.step items))) =
         parseEventsLoop env input rest
           (stOfX env base (before ++ st) content n (some (.step (items ++ itemsFrom before st)))) := by
@@ -125,7 +213,7 @@ theorem rts_loop_items (env : Env) (input : Str) (hadv : env.ext.has Gen.EXT_ADV
   | cons it r ih =>
     intro hs before items
     rw [List.map_cons, List.cons_append, parseEventsLoop_cons_nonerror env input _ _ _ (rta_ev_not_error it),
-      rts_item env input hadv hinl base hb it (hs it (by simp)), ih (fun x hx => hs x (by simp [hx]))]
+      rts_item env input base hb it (hs it (by simp)), ih (fun x hx => hs x (by simp [hx]))]
     simp [itemsFrom]
 
 theorem rts_start (env : Env) (input : Str) (base : Col α) (hb : BaseOK base) (before : List (SItem α))
@@ -144,9 +232,8 @@ theorem rts_stop (env : Env) (input : Str) (base : Col α) (hb : BaseOK base) (b
     MonadStateOf.modifyGet, StateT.modifyGet, stOfX, hb.1]
 
 /-- one step block -/
-theorem rts_loop_step (env : Env) (input : Str) (hadv : env.ext.has Gen.EXT_ADVANCED_UNITS = false)
-    (hinl : env.ext.has Gen.EXT_INLINE_QUANTITIES = false) (base : Col α) (hb : BaseOK base) (rest : List (Ev α))
-    (st : List (SItem α)) (hs : ∀ it ∈ st, it.Simple) (hne : st ≠ []) (before : List (SItem α))
+theorem rts_loop_step (env : Env) (input : Str) (base : Col α) (hb : BaseOK base) (rest : List (Ev α))
+    (st : List (SItem α)) (hs : ∀ it ∈ st, it.SimpleX env) (hne : st ≠ []) (before : List (SItem α))
     (content : List Content) (n : Nat) :
     parseEventsLoop env input (stepEvents st ++ rest) (stOfX env base before content n none) =
       parseEventsLoop env input rest
@@ -154,7 +241,7 @@ theorem rts_loop_step (env : Env) (input : Str) (hadv : env.ext.has Gen.EXT_ADVA
   have e : stepEvents st ++ rest = Ev.start .step :: (st.map SItem.ev ++ (Ev.stop .step :: rest)) := by
     simp [stepEvents]
   rw [e, parseEventsLoop_cons_nonerror env input _ _ _ (by rintro ⟨d, h⟩; cases h), rts_start env input base hb,
-    rts_loop_items env input hadv hinl base hb _ content n st hs before [],
+    rts_loop_items env input base hb _ content n st hs before [],
     parseEventsLoop_cons_nonerror env input _ _ _ (by rintro ⟨d, h⟩; cases h), List.nil_append,
     rts_stop env input base hb _ content n _ (rta_itemsFrom_ne before st hne)]
 
@@ -265,8 +352,7 @@ theorem rts_final (env : Env) (input : Str) (base : Col α) (before : List (SIte
       constructor <;>
         simp [stOfX, h1, h2, docSecs, docStepItems, docEntries, docMeta, docSpans, deprecation]
 
-theorem rts_loop_doc (env : Env) (input : Str) (hadv : env.ext.has Gen.EXT_ADVANCED_UNITS = false)
-    (hinl : env.ext.has Gen.EXT_INLINE_QUANTITIES = false) :
+theorem rts_loop_doc (env : Env) (input : Str) :
     ∀ (blocks : List (SBlock α)), (∀ b ∈ blocks, b.OK env) →
       ∀ (base : Col α), BaseOK base → ∀ (before : List (SItem α)) (content : List Content) (n : Nat),
       ∃ c : Col α,
@@ -285,7 +371,7 @@ theorem rts_loop_doc (env : Env) (input : Str) (hadv : env.ext.has Gen.EXT_ADVAN
       obtain ⟨hs, hne⟩ := hb0
       obtain ⟨c, h1, h2⟩ := ih hr base hb (before ++ st) (content ++ [.step ⟨itemsFrom before st, n⟩]) (n + 1)
       refine ⟨c, ?_, ?_⟩
-      · rw [List.flatMap_cons, SBlock.events, rts_loop_step env input hadv hinl base hb _ st hs hne, h1]
+      · rw [List.flatMap_cons, SBlock.events, rts_loop_step env input base hb _ st hs hne, h1]
       · obtain ⟨a1, a2, a3, a4, a5, a6, a7, a8, a9⟩ := h2
         exact ⟨by rw [a1]; rfl, by rw [a2]; simp [docStepItems], by rw [a3]; simp [docStepItems], by rw [a4]; simp [docStepItems],
           a5, a6, a7, a8, a9⟩
@@ -324,8 +410,7 @@ theorem rts_loop_doc (env : Env) (input : Str) (hadv : env.ext.has Gen.EXT_ADVAN
         · rw [a7, e4, e5]; simp [docEntries, docSpans]
 
 /-- **analysis layer, documents with sections and metadata** -/
-theorem rts_parseEvents_doc (env : Env) (input : Str) (hadv : env.ext.has Gen.EXT_ADVANCED_UNITS = false)
-    (hinl : env.ext.has Gen.EXT_INLINE_QUANTITIES = false) (blocks : List (SBlock α)) (hok : ∀ b ∈ blocks, b.OK env) :
+theorem rts_parseEvents_doc (env : Env) (input : Str) (blocks : List (SBlock α)) (hok : ∀ b ∈ blocks, b.OK env) :
     ∃ c : Col α, parseEvents env input (blocks.flatMap SBlock.events) = ⟨some c, c.diags, none⟩ ∧
       c.sections = docSecs env [] ⟨none, []⟩ 1 blocks ∧
       c.ingredients.toList = (ingrsOf (docStepItems blocks)).map (ingrOf env) ∧
@@ -335,7 +420,7 @@ theorem rts_parseEvents_doc (env : Env) (input : Str) (hadv : env.ext.has Gen.EX
       c.diags = deprecation (docSpans (docEntries blocks)) ∧
       c.inlineQ = #[] ∧ c.frontMatter = none := by
   have h0 : ({} : Col α) = stOfX env {} [] [] 1 none := by simp [stOfX, ingrsOf, cwsOf, timersOf]
-  obtain ⟨c, h1, h2⟩ := rts_loop_doc env input hadv hinl blocks hok {} ⟨rfl, rfl⟩ [] [] 1
+  obtain ⟨c, h1, h2⟩ := rts_loop_doc env input blocks hok {} ⟨rfl, rfl⟩ [] [] 1
   refine ⟨c, ?_, ?_, ?_, ?_, ?_, ?_, ?_, ?_, ?_⟩
   · unfold parseEvents; rw [h0, h1]
   · rw [h2.sections]; simp
